@@ -1631,7 +1631,7 @@ func goroutineRecover(c *Check) {
 
 // boundedReads: O-C09.4 (a).
 func boundedReads(c *Check) {
-	nread, nbody := 0, 0
+	nread, nbody, nlimit := 0, 0, 0
 	forbidden := map[string]bool{
 		"net/http.NewRequest": true, "net/http.Get": true, "net/http.Post": true, "net/http.Head": true, "net/http.PostForm": true,
 		"(*net/http.Client).Get": true, "(*net/http.Client).Post": true, "(*net/http.Client).Head": true, "(*net/http.Client).PostForm": true,
@@ -1661,21 +1661,57 @@ func boundedReads(c *Check) {
 				if full == "net/http.NewRequestWithContext" {
 					nreq++
 				}
-				if full == "io.ReadAll" {
-					nread++
+				if full == "io.LimitReader" {
+					// the bound is a positive constant - written here, or handed in through a parameter
+					// by every caller of this function
+					nlimit++
 					ok := false
 					var det []string
-					if inner, isCall := ast.Unparen(x.Args[0]).(*ast.CallExpr); isCall {
-						if f2, _ := typeutil.Callee(info, inner).(*types.Func); f2 != nil && f2.FullName() == "io.LimitReader" {
-							if tv := info.Types[inner.Args[1]]; tv.Value != nil {
-								if k, isInt := intConst(constTerm(tv.Value)); isInt && k > 0 {
-									ok = true
-									det = append(det, "bound: "+tv.Value.String()+" bytes")
-								}
+					posConst := func(info *types.Info, e ast.Expr) bool {
+						if tv := info.Types[e]; tv.Value != nil {
+							if k, isInt := intConst(constTerm(tv.Value)); isInt && k > 0 {
+								det = append(det, "bound: "+tv.Value.String()+" bytes")
+								return true
+							}
+						}
+						return false
+					}
+					if posConst(info, x.Args[1]) {
+						ok = true
+					} else if id, isID := ast.Unparen(x.Args[1]).(*ast.Ident); isID {
+						pv, _ := info.Uses[id].(*types.Var)
+						if pi := paramIndex(fs, pv); pv != nil && pi >= 0 && !assignsTo(fs, pv) {
+							ncall := 0
+							ok = true
+							for _, g := range c.P.productFuncs() {
+								ast.Inspect(g.Decl.Body, func(m ast.Node) bool {
+									if call, isCall := m.(*ast.CallExpr); isCall {
+										if typeutil.StaticCallee(g.Pkg.TypesInfo, call) == fs.Obj && pi < len(call.Args) {
+											ncall++
+											if !posConst(g.Pkg.TypesInfo, call.Args[pi]) {
+												ok = false
+											}
+										}
+									}
+									return true
+								})
+							}
+							if ncall == 0 {
+								ok = false
 							}
 						}
 					}
-					c.add("O-C09.4", "io.ReadAll in "+name+" is bounded", "the reader is io.LimitReader(_, positive constant)", ok, c.P.pos(x.Pos()), det...)
+					c.add("O-C09.4", "io.LimitReader in "+name+" has a positive constant bound", "the bound is a positive constant (at the call, or at every call of the function that takes it as a parameter)", ok, c.P.pos(x.Pos()), det...)
+				}
+				if full == "io.ReadAll" {
+					nread++
+					ok := false
+					if inner, isCall := ast.Unparen(x.Args[0]).(*ast.CallExpr); isCall {
+						if f2, _ := typeutil.Callee(info, inner).(*types.Func); f2 != nil && f2.FullName() == "io.LimitReader" {
+							ok = true
+						}
+					}
+					c.add("O-C09.4", "io.ReadAll in "+name+" is bounded", "the reader is an io.LimitReader", ok, c.P.pos(x.Pos()))
 				}
 			case *ast.SelectorExpr:
 				sel, ok := info.Selections[x]
@@ -1704,7 +1740,9 @@ func boundedReads(c *Check) {
 			return true
 		})
 	}
-	c.floor("io.ReadAll calls in product code", 2, nread)
+	_ = nread
+	c.floor("io.LimitReader calls in product code", 2, nlimit)
+	growNonNegative(c)
 	c.floor("http.Response.Body uses in product code", 2, nbody)
 	c.floor("http.NewRequestWithContext calls in product code", 2, nreq)
 }
@@ -1934,4 +1972,123 @@ func producesHeaderMap(c *Check, name string) bool {
 		return !uses
 	})
 	return uses
+}
+
+// assignsTo: does the body of fs assign the variable o (or take its address)?
+func assignsTo(fs *FuncSrc, o types.Object) bool {
+	info := fs.Pkg.TypesInfo
+	found := false
+	ast.Inspect(fs.Decl.Body, func(n ast.Node) bool {
+		switch x := n.(type) {
+		case *ast.AssignStmt:
+			for _, l := range x.Lhs {
+				if id, ok := ast.Unparen(l).(*ast.Ident); ok && info.Uses[id] == o {
+					found = true
+				}
+			}
+		case *ast.IncDecStmt:
+			if id, ok := ast.Unparen(x.X).(*ast.Ident); ok && info.Uses[id] == o {
+				found = true
+			}
+		case *ast.UnaryExpr:
+			if id, ok := ast.Unparen(x.X).(*ast.Ident); ok && x.Op == token.AND && info.Uses[id] == o {
+				found = true
+			}
+		}
+		return true
+	})
+	return found
+}
+
+// growNonNegative (O-C09.2): (*bytes.Buffer).Grow, (*strings.Builder).Grow and slices.Grow panic on a
+// negative count. Every field or call result (other than len/cap) that the count is computed from
+// was tested to be positive or non-negative on every path to the call (net/http reports an unknown
+// Content-Length as -1). Parameters and constants are not decided here.
+func growNonNegative(c *Check) {
+	growers := map[string]int{"(*bytes.Buffer).Grow": 1, "(*strings.Builder).Grow": 1, "slices.Grow": 1}
+	for _, fs := range c.P.productFuncs() {
+		info := fs.Pkg.TypesInfo
+		has := false
+		ast.Inspect(fs.Decl.Body, func(n ast.Node) bool {
+			if call, ok := n.(*ast.CallExpr); ok {
+				if fn, _ := typeutil.Callee(info, call).(*types.Func); fn != nil {
+					if _, g := growers[strings.TrimSuffix(fn.Origin().FullName(), "[...]")]; g {
+						has = true
+					}
+				}
+			}
+			return true
+		})
+		if !has {
+			continue
+		}
+		name := c.P.abbrev(fs.Obj.FullName())
+		pg := c.pgOfNI(name)
+		if pg == nil {
+			continue
+		}
+		type site struct {
+			key    string
+			leaves map[string]bool
+		}
+		sites := map[string]*site{}
+		for _, st := range pg.States {
+			for _, e := range st.Out {
+				for _, l := range e.Labels {
+					if l.Kind != "call" || l.T == nil {
+						continue
+					}
+					ai, g := growers[l.T.Name]
+					if !g || ai >= len(l.T.Args) {
+						continue
+					}
+					if sites[l.Key] == nil {
+						sites[l.Key] = &site{key: l.Key, leaves: map[string]bool{}}
+					}
+					var walk func(t *Term)
+					walk = func(t *Term) {
+						if t == nil {
+							return
+						}
+						switch t.Op {
+						case "field":
+							sites[l.Key].leaves[t.Key()] = true
+							return
+						case "res":
+							sites[l.Key].leaves[t.Key()] = true
+							return
+						case "call":
+							if t.Name == "len" || t.Name == "cap" {
+								return
+							}
+							if t.Name != "min" && t.Name != "max" && !strings.HasPrefix(t.Name, "conv:") && len(t.Args) > 0 && t.Name != "int" && t.Name != "int64" {
+								sites[l.Key].leaves[t.Key()] = true
+								return
+							}
+						}
+						for _, a := range t.Args {
+							walk(a)
+						}
+					}
+					walk(l.T.Args[ai])
+				}
+			}
+		}
+		for _, k := range sortedKeysOf(sites) {
+			sv := sites[k]
+			for _, leaf := range sortedKeys(sv.leaves) {
+				lp := AnyOf(A("+Lt(0, "+leaf+")"), A("-Lt("+leaf+", 0)"), A("+Lt(-1, "+leaf+")"), A("-Lt("+leaf+", 1)"))
+				c.mustPass(pg, "O-C09.2", "count of Grow in "+name+" is not negative ("+leaf+")", "calling Grow (panics on a negative count)", edgeSources(pg, CallKey(k)), lp)
+			}
+		}
+	}
+}
+
+func sortedKeysOf[V any](m map[string]V) []string {
+	var out []string
+	for k := range m {
+		out = append(out, k)
+	}
+	sort.Strings(out)
+	return out
 }
